@@ -68,6 +68,18 @@ def run(chk, replay=None):
             scns.append(cc.mk([P(1)], room=10, extra_client=[["read", 20], ["read", 20], ["readall"]], drains=False,
                               faults={"send": [None] * nth + [e]}, apps={1: {"chunks": [40, 40, 40], "cl": "none"}},
                               adj={"outbuf_high_watermark": 30}, name="producer paused above the watermark, send#%d fails %s" % (nth + 1, errno.errorcode[e])))
+    for e in (errno.EINVAL, errno.ETIMEDOUT):
+        scns.append(cc.mk([P(1)], room=10, extra_client=[["read", 20], ["read", 20], ["readall"]], drains=False,
+                          faults={"send": [None] * 2 + [e]}, apps={1: {"chunks": [40, 40, 40]}},
+                          adj={"outbuf_high_watermark": 30, "log_socket_errors": False},
+                          name="producer paused above the watermark, sends fail %s from #3 on, log_socket_errors off" % errno.errorcode[e]))
+    # the application fails while a pipelined request is already buffered behind it: one error response, closure,
+    # nothing further executed
+    for la in (0, 1):
+        for split in ("one", "each"):
+            for spec in ({"raise": "call"}, {"raise_at": 0, "chunks": [3]}, {"raise_at": 1, "chunks": [3, 3], "cl": "none"}):
+                scns.append(cc.mk([P(1), P(2)], lookahead=la, workers=2, split=split, apps={1: spec},
+                                  name="application fails (%s), follower in %s read, la=%d" % (sorted(spec.items())[-1], "the same" if split == "one" else "a later", la)))
     n_pct, dfs = (500, 2000) if chk.thorough else (50, 250)
     cc.explore_and_validate(chk, "C09", scns, n_pct, dfs, bound=2, label="paused-producer")
     chk.exhaustive = True
